@@ -730,6 +730,15 @@ class SyncWorld(World):
     def api_send_payload(self, slot, data):
         return self.api(lambda: self.server.send(self.sids[slot], data))
 
+    def app_burst(self, slot, k, then_disconnect=False):
+        """One application thread: k send() calls in a row, then optionally disconnect(sid)."""
+        def call():
+            for _ in range(k):
+                self._app_send(slot)
+            if then_disconnect:
+                self.server.disconnect(self.sids[slot])
+        return self.api(call)
+
     def app_disconnect_with_id(self, slot, cid):
         def call():
             self.server.disconnect(None if slot is None else self.sids.get(slot, 'unknown-sid'))
